@@ -501,6 +501,7 @@ def run(ctx):
         pass
 
     uri_stage(ctx)
+    vlib.bad_done_stage(ctx, "c15_buf.cpp", "c15_buf", "numeral delivered in pieces differs from memory_input", "buf")
     ctx.trusted_base = vlib.default_trusted_base() + [
         "C15: hand-written driver/c15_driver.ml and harness/c15_impl.cpp (instantiates the real rules/actions; checked memory_input subclass; ASan+UBSan second build)",
         "C15: the Python oracle in checks/C15.py (regular expression for the documented numeral syntax + int arithmetic)",
@@ -584,6 +585,8 @@ def uri_stage(ctx):
 def replay(j):
     """bin/check --replay <file>: run the stored case on the current tree and re-evaluate the oracle."""
     r = j["replay"]
+    if r.get("mode") == "buf":
+        return vlib.replay_bad_done("C15", "c15_buf.cpp", "c15_buf", "numeral delivered in pieces differs from memory_input", "buf")
     if r.get("stage") == "uri":
         class _C:
             def __init__(self):
